@@ -515,6 +515,23 @@ func evalC05Raw(c c05RawCase) *Failure {
 			send(`4/a,{"message":"boo"}`)
 		case "event-unknown-nsp":
 			send(`2/zzz,["ev","x"]`)
+		case "concurrent-connects":
+			// two CONNECT packets for /c back to back: both are inside /c's slow middleware at the same time
+			send("0/c,", "0/c,")
+			settle(10 * time.Second)
+			cli.Close()
+			settle(5 * time.Second)
+			mu.Lock()
+			nConn := connections["/c"]
+			mu.Unlock()
+			left := len(r.Server.Of("/c").Sockets())
+			if nConn > 1 || left != 0 {
+				res = fail("one-socket-per-namespace", fmt.Sprintf("two simultaneous CONNECT packets for /c on one connection: %d sockets were admitted; after the connection was closed %d socket(s) are still listed in /c", nConn, left))
+				return
+			}
+			mu.Lock()
+			defer mu.Unlock()
+			goto others
 		case "event-after-leaving", "ack-after-leaving", "rejoin-after-leaving":
 			// the connection is attached to /a and /b, talks to /a, leaves /a (only /a), and then addresses /a again
 			send("0/b,")
@@ -610,13 +627,13 @@ func TestC05_RawPeer(t *testing.T) {
 	setT(t)
 	defer startWatchdog(t, 60*time.Second)()
 	ev := NewEv(t, "C05", c05CheckRaw, "enumeration: a hand-written Socket.IO client (repo's eio package) joins /a and then sends EVENT / BINARY_EVENT / ACK / DISCONNECT for /b (exists, never joined), an EVENT for "+
-		"/c while its CONNECT is still in a slow middleware, an EVENT for a namespace that does not exist, a second CONNECT for /a, a CONNECT_ERROR, and - attached to /a and /b - leaves /a and then sends an EVENT / an ACK for /a or joins /a again; x {polling, websocket}; oracle: nothing is dispatched "+
+		"/c while its CONNECT is still in a slow middleware, an EVENT for a namespace that does not exist, a second CONNECT for /a, a CONNECT_ERROR, and - attached to /a and /b - leaves /a and then sends an EVENT / an ACK for /a or joins /a again, and two simultaneous CONNECT packets for a namespace with a slow middleware; x {polling, websocket}; oracle: nothing is dispatched "+
 		"to any handler, the offending connection is closed (not-joined cases), a healthy client on another connection still round-trips; non-trivial = every case")
 	ev.Exhaustive()
 	i := 0
 	for _, tr := range []string{"polling", "websocket"} {
 		for _, h := range []string{"event-unjoined", "binary-event-unjoined", "ack-unjoined", "disconnect-unjoined", "event-pending", "second-connect", "connect-error", "event-unknown-nsp",
-			"event-after-leaving", "ack-after-leaving", "rejoin-after-leaving"} {
+			"event-after-leaving", "ack-after-leaving", "rejoin-after-leaving", "concurrent-connects"} {
 			i++
 			if !mine(i) {
 				continue
